@@ -96,9 +96,15 @@ func spent(section string, t0 time.Time) {
 }
 
 // safe runs f converting a panic into a string.
-func safe(f func() error) (err error, pan string) {
+func safe(f func() error) (err error, pan string) { return safeS("", f) }
+
+// safeS is safe with the time spent in f accounted to a section.
+func safeS(section string, f func() error) (err error, pan string) {
 	slots <- struct{}{}
 	defer func() { <-slots }()
+	if section != "" {
+		defer spent(section, time.Now())
+	}
 	p, stack := vcore.Catch(func() { err = f() })
 	if p != nil {
 		return nil, fmt.Sprintf("%v\n%s", p, stack)
@@ -329,7 +335,22 @@ func (p *phase) elementEdits(k, perClass, nFull, workers int) {
 	all, _ := p.candidateEdits(k)
 	var chosen []edit
 	if perClass <= 0 {
-		chosen = all
+		// thorough: every element under the four replacement classes of the design; the three
+		// additional classes on every proof element, every element of small contributions, both
+		// ends of every vector and a PRNG quarter of the rest
+		core := map[string]bool{"neighbour": true, "generator": true, "double": true, "parallel-chain": true}
+		last := map[string]int{}
+		for _, e := range all {
+			if e.slot.Idx > last[e.slot.Vec] {
+				last[e.slot.Vec] = e.slot.Idx
+			}
+		}
+		small := len(p.layouts[k-1].Slots) <= 50
+		for _, e := range all {
+			if core[e.class] || small || e.slot.Proof || e.slot.Idx <= 1 || e.slot.Idx == last[e.slot.Vec] || p.rng.IntN(4) == 0 {
+				chosen = append(chosen, e)
+			}
+		}
 	} else {
 		groups := map[string][]edit{}
 		var keys []string
@@ -367,9 +388,7 @@ func (p *phase) elementEdits(k, perClass, nFull, workers int) {
 		e := chosen[i]
 		edited := api.Replace(base, e.slot, e.bytes)
 		var de, ve error
-		t0 := time.Now()
-		_, pan := safe(func() error { de, ve = st(edited); return nil })
-		spent(p.ph+"/element", t0)
+		_, pan := safeS(p.ph+"/element", func() error { de, ve = st(edited); return nil })
 		if de != nil && pan == "" {
 			p.r.Inconclusive("edited-contribution-does-not-decode")
 			p.r.Count(p.ph+".element-edit.decode-error", 1)
@@ -392,9 +411,7 @@ func (p *phase) elementEdits(k, perClass, nFull, workers int) {
 		e := chosen[i]
 		chain := append([][]byte{}, p.A...)
 		chain[k-1] = api.Replace(base, e.slot, e.bytes)
-		t0 := time.Now()
-		err, pan := safe(func() error { return p.full(chain) })
-		spent(p.ph+"/element-in-full-transcript", t0)
+		err, pan := safeS(p.ph+"/element-in-full-transcript", func() error { return p.full(chain) })
 		p.reject("element-in-full-transcript/"+e.class, fmt.Sprintf("k=%d %s", k, e.slot.Name), err, pan, func() map[string]any {
 			return map[string]any{"k": k, "slot": e.slot.Name, "replacement": hx(e.bytes), "chain": hxs(chain), "initial": hx(p.init)}
 		})
@@ -585,9 +602,7 @@ func (p *phase) consistentEdits(k int) {
 
 func (p *phase) tryStep(st api.Step, class, name string, prev, edited []byte, k int) {
 	var de, ve error
-	t0 := time.Now()
-	_, pan := safe(func() error { de, ve = st(edited); return nil })
-	spent(p.ph+"/consistent", t0)
+	_, pan := safeS(p.ph+"/consistent", func() error { de, ve = st(edited); return nil })
 	if de != nil && pan == "" {
 		p.r.Inconclusive("edited-contribution-does-not-decode")
 		return
@@ -614,9 +629,7 @@ func (p *phase) challengeEdits(k, nBits int, honestOut func(chain [][]byte) ([]b
 		}
 		edited := api.SetChallenge(base, l, nc)
 		var de, ve error
-		t0 := time.Now()
-		_, pan := safe(func() error { de, ve = st(edited); return nil })
-		spent(p.ph+"/challenge", t0)
+		_, pan := safeS(p.ph+"/challenge", func() error { de, ve = st(edited); return nil })
 		if de != nil && pan == "" {
 			p.r.Count(p.ph+".challenge-edit.decode-error", 1)
 			p.r.Eval(p.label+"|"+p.ph+"|challenge-decode|"+name, true)
@@ -681,9 +694,7 @@ func mustLayout(p *phase, b []byte) *api.Layout {
 // chainCases: attacks on the order / provenance of whole contributions.
 func (p *phase) chainCases() {
 	try1 := func(class, name string, chain [][]byte) {
-		t0 := time.Now()
-		err, pan := safe(func() error { return p.full(chain) })
-		spent(p.ph+"/chain", t0)
+		err, pan := safeS(p.ph+"/chain", func() error { return p.full(chain) })
 		p.reject("chain/"+class, name, err, pan, func() map[string]any {
 			return map[string]any{"case": name, "chain": hxs(chain), "initial": hx(p.init)}
 		})
@@ -941,7 +952,7 @@ func TestC18(t *testing.T) {
 	// ---- twin circuits: a chain for one circuit offered for a circuit of identical shape
 	vcore.Parallel(len(curves), 4, func(i int) { runTwins(r, curves[i]) })
 
-	// ---- degenerate domain N=1 (outside DESIGN's 2..64): recorded, not judged
+	// ---- the smallest legal domain, N=1 (one-constraint circuit)
 	for _, o := range curves {
 		probeDomainOne(r, o)
 	}
@@ -984,13 +995,13 @@ func TestC18(t *testing.T) {
 		level = "fault_enumeration"
 	}
 	r.Finish(level,
-		"per curve: domain sizes 2..64 and generated circuits with 0/1/2 commitments; two honest 4-contribution chains per phase, every participant working from bytes; all prefixes (0..4 contributions) must verify, Challenge must equal SHA-256 of the previous serialization, keys of a PRNG-chosen (n1,n2) in 1..4 x 1..4 must prove+verify 3 witnesses and not be interchangeable with single-party keys; must-reject: single-element replacement (neighbour, generator, double, negation, identity, same slot of the parallel chain, same slot of the previous contribution) of elements of one contribution (thorough: every element incl. update proofs; quick: all proof elements + ends + PRNG subset per vector and class), Challenge edits, reordered/spliced/dropped/duplicated/forked chains, foreign commons / circuit / domain. distinct = (curve, N or circuit, phase, class, slot or case); non-trivial = the edited bytes differ from the honest ones",
+		"per curve: domain sizes 2..64 and generated circuits with 0/1/2 commitments; two honest 4-contribution chains per phase, every participant working from bytes; all prefixes (0..4 contributions) must verify, Challenge must equal SHA-256 of the previous serialization, keys of a PRNG-chosen (n1,n2) in 1..4 x 1..4 must prove+verify 3 witnesses and not be interchangeable with single-party keys; must-reject: single-element replacement (neighbour, generator, double, negation, identity, same slot of the parallel chain, same slot of the previous contribution) of elements of one contribution (thorough: every element incl. update proofs under neighbour/generator/double/parallel-chain, the other three classes on all proof elements, small contributions, vector ends and a PRNG quarter; quick: all proof elements + ends + PRNG subset per vector and class), consistent multi-element re-basings and transplanted vectors / update proofs, Challenge edits, reordered/spliced/dropped/duplicated/forked chains, foreign commons / circuit / domain. distinct = (curve, N or circuit, phase, class, slot or case); non-trivial = the edited bytes differ from the honest ones",
 		[]string{
 			"soundness error of the random-linear-combination and hash-to-curve checks (~2^-250) treated as never",
 			"contributions are generated with crypto/rand: case *selection* is seed-deterministic, the group elements are not; replay files carry the bytes",
 			"replacement points are valid subgroup points (the decoder rejects others before Verify is reached)",
 			"an emptied Challenge field is a tolerance stated in the code (verifier fills it in): recorded, required only to leave the output unchanged",
-			"N=1 (single-constraint circuit) is outside the designed workload; its behaviour is recorded under observed domain1.*",
+			"N=1: NewPhase1/Initialize accept any power of two and N = NextPowerOfTwo(nbConstraints) is gnark's own recipe, so a one-constraint circuit (which single-party Setup handles) is taken to be in the domain of 'every domain size'",
 		})
 }
 
@@ -1360,34 +1371,111 @@ func runTwins(r *vcore.Run, o *api.Ops) {
 	}
 }
 
-// probeDomainOne records what the ceremony does for N=1 (a circuit with a single constraint).
+// oneRow is a legitimate circuit with a single constraint: its FFT domain has size 1.
+type oneRow struct {
+	Out frontend.Variable `gnark:",public"`
+	A   frontend.Variable
+}
+
+func (c *oneRow) Define(api frontend.API) error {
+	api.AssertIsEqual(c.A, c.Out)
+	return nil
+}
+
+// probeDomainOne: the smallest legal domain.  NewPhase1/Initialize accept every power of two and
+// gnark's own recipe is N = NextPowerOfTwo(nbConstraints), so a one-constraint circuit has N = 1.
+// The statement quantifies over every domain size: the honest ceremony must verify (or at least
+// answer with an error); single-party Setup/Prove/Verify of the same circuit is the reference.
 func probeDomainOne(r *vcore.Run, o *api.Ops) {
-	var outcome string
-	_, pan := safe(func() error {
-		init, err := o.P1New(1)
-		if err != nil {
-			outcome = "P1New error: " + err.Error()
-			return nil
-		}
-		c, err := o.P1Contribute(init)
-		if err != nil {
-			outcome = "Contribute error: " + err.Error()
-			return nil
-		}
-		if _, err = o.P1Verify(1, beacon1, [][]byte{c}); err != nil {
-			outcome = "honest 1-contribution chain rejected: " + err.Error()
-			return nil
-		}
-		outcome = "honest 1-contribution chain accepted"
-		return nil
-	})
-	if pan != "" {
-		first := pan
-		if i := bytes.IndexByte([]byte(pan), '\n'); i > 0 {
-			first = pan[:i]
-		}
-		outcome = "panic: " + first
+	field := o.ID.ScalarField()
+	label := o.Name + "/N=1"
+	ccs, err := frontend.Compile(field, r1cs.NewBuilder, &oneRow{})
+	if err != nil || ccs.GetNbConstraints() != 1 {
+		r.Inconclusive("one-constraint-circuit-unavailable")
+		return
 	}
-	r.Count("domain1."+outcome, 1)
-	r.SampleClass("domain-size-1(recorded,not-judged)", map[string]any{"curve": o.Name, "outcome": outcome})
+	N := nextPow2(ccs.GetNbConstraints())
+	full, _ := circuits.MakeWitness(field, []*big.Int{big.NewInt(7)}, []*big.Int{big.NewInt(7)})
+	pw, _ := full.Public()
+	refOK := false
+	if pk, vk, err := groth16.Setup(ccs); err == nil {
+		if proof, err := groth16.Prove(ccs, pk, full); err == nil && groth16.Verify(proof, vk, pw) == nil {
+			refOK = true
+		}
+	}
+	if !refOK {
+		r.Inconclusive("one-constraint-circuit-fails-with-single-party-setup")
+		return
+	}
+	r.Count("domain1.single-party-setup-proves-and-verifies", 1)
+	r.Eval(label+"|honest-ceremony", true)
+	stage := "NewPhase1"
+	var init, c1, commons []byte
+	rep := map[string]any{"curve": o.Name, "N": N, "circuit": "Out public, A secret; AssertIsEqual(A, Out) (1 constraint)"}
+	err, pan := safe(func() (e error) {
+		if init, e = o.P1New(N); e != nil {
+			return
+		}
+		stage = "Phase1.Contribute"
+		if c1, e = o.P1Contribute(init); e != nil {
+			return
+		}
+		rep["contribution"] = hx(c1)
+		stage = "VerifyPhase1(N=1, 1 honest contribution)"
+		commons, e = o.P1Verify(N, beacon1, [][]byte{c1})
+		return
+	})
+	rep["stage"] = stage
+	switch {
+	case pan != "":
+		r.Count("domain1.honest-ceremony-PANICS at "+stage, 1)
+		rep["panic"] = pan
+		r.Violation("honest-chain-panics/p1/domain-size-1",
+			fmt.Sprintf("%s: honest phase-1 ceremony for a one-constraint circuit (N=1) panicked at %s: %s", o.Name, stage, firstLine(pan)), rep)
+		return
+	case err != nil:
+		r.Count("domain1.honest-ceremony-rejected at "+stage, 1)
+		r.Violation("honest-chain-rejected/p1/domain-size-1",
+			fmt.Sprintf("%s: honest phase-1 ceremony for a one-constraint circuit (N=1) failed at %s: %v", o.Name, stage, err), rep)
+		return
+	}
+	r.Count("domain1.phase1-accepted", 1)
+	// phase 2 and keys
+	var pk groth16.ProvingKey
+	var vk groth16.VerifyingKey
+	stage = "Phase2.Initialize"
+	err, pan = safe(func() (e error) {
+		var p0, p1 []byte
+		if p0, e = o.P2New(ccs, commons); e != nil {
+			return
+		}
+		stage = "Phase2.Contribute"
+		if p1, e = o.P2Contribute(p0); e != nil {
+			return
+		}
+		stage = "VerifyPhase2"
+		if pk, vk, e = o.P2Verify(ccs, commons, beacon2, [][]byte{p1}); e != nil {
+			return
+		}
+		stage = "Prove/Verify with the ceremony's keys"
+		proof, e := groth16.Prove(ccs, pk, full)
+		if e != nil {
+			return e
+		}
+		return groth16.Verify(proof, vk, pw)
+	})
+	rep["stage"] = stage
+	if pan != "" || err != nil {
+		rep["panic"] = pan
+		r.Violation("honest-chain-fails/p2/domain-size-1", fmt.Sprintf("%s: N=1 ceremony failed at %s: %v %s", o.Name, stage, err, firstLine(pan)), rep)
+		return
+	}
+	r.Count("domain1.keys-prove-and-verify", 1)
+}
+
+func firstLine(s string) string {
+	if i := strings.IndexByte(s, '\n'); i > 0 {
+		return s[:i]
+	}
+	return s
 }
